@@ -9,7 +9,7 @@ RULE = ("bounded-exhaustive product: every mutating entry point (constructor dat
         "update as mapping / pairs / kwargs, reset, append, extend, insert, +=, attribute assignment for the attr families; "
         "the public API is also listed by reflection and unknown callables are reported) x target {root, nested dict, nested "
         "list} x invalid item {keys: int, float, bool, None, tuple; values: object(), set, complex, custom instance, Mapping "
-        "with a non-string key; dotted key for attribute-access families} x placement of the item inside the argument {top, "
+        "with a non-string key; dotted key for attribute-access families, bare and inside a live collection of a plain family} x placement of the item inside the argument {top, "
         "in a dict, in a list, depth 3} x every concrete class, from the initial state and after one valid operation; the "
         "call must raise a TypeError/ValueError subclass and leave memory and resource unchanged; non-trivial = distinct "
         "(class, entry point, target, item, placement) cases whose reference verdict is 'reject'")
@@ -42,6 +42,9 @@ def items_for(clsname):
             out.append(("value:" + v[1], v))
     if fam in env.ATTR_FAMILIES:
         out.append(("dotted", {"a.b": 0}))
+        # the same dotted key arriving inside a live collection of a family that may legally hold it
+        out.append(("dotted-in-foreign-collection", ("#foreign", {"a.b": 0})))
+        out.append(("dotted-in-foreign-child", ("#foreign", {"c": {"a.b": 0}})))
     return out
 
 
